@@ -77,6 +77,12 @@ void drive_doc() {
   (void)n.AtPointer(GenericJsonPointer<StringView>({"a", 1}));
   (void)n.AtPointer("a", 1, "b");
   (void)n.AtPointer(1, "a");
+  (void)n.IsNull();
+  (void)n.IsBool();
+  (void)n.IsTrue();
+  (void)n.IsFalse();
+  (void)n.IsStringConst();
+  (void)n.IsContainer();
   const Node& cn = n;
   (void)cn.AtPointer(GenericJsonPointer<std::string>({"a", 1}));
   (void)cn.AtPointer(GenericJsonPointer<StringView>({"a", 1}));
